@@ -2610,6 +2610,11 @@ def _t18():
                        z3.And(gv(g, '_getFinished_a0') == ms, gv(g, '_sendFinished_a0') == ms,
                               tint(g.get('t__calcPendingStates')) < tint(g.get('t__getFinished')),
                               tint(g.get('t__getFinished')) < tint(g.get('t__sendFinished'))))
+            # C06: the NPN extension is put into the ServerHello whenever the caller passed a protocol list (also an empty
+            # one: `nextProtos is not None`); the NextProtocol message is then mandatory between the client's CCS and Finished
+            enp = g.get('_getFinished_k_expect_next_protocol')
+            api.oblige(o.st, 'C06:NextProtocol-is-expected-exactly-when-a-protocol-list-was-given(is-not-None)',
+                       enp is not None and truthy(enp) == (T(e['nextProtos']) != v_none))
             api.oblige(o.st, 'C13:ticket-decision-and-client-chain-handed-to-_sendFinished-unchanged',
                        z3.And(gv(g, '_sendFinished_k_send_session_ticket') == T(e['send_session_ticket']),
                               gv(g, '_sendFinished_k_client_cert_chain') == T(e['client_cert_chain']),
@@ -2618,7 +2623,7 @@ def _t18():
 
 
 _spec18, _check18 = _t18()
-m2s('_serverFinished/order', ('C04', 'C03', 'C13'), TC + '_serverFinished', _spec18, check=_check18,
+m2s('_serverFinished/order', ('C04', 'C03', 'C13', 'C06'), TC + '_serverFinished', _spec18, check=_check18,
     doc='full handshake <= TLS 1.2: master secret from the negotiated inputs, recorded in the session; the client '
         'Finished is checked before the server sends ticket, ChangeCipherSpec and Finished')
 
